@@ -344,9 +344,12 @@ fn check_history(c: &Case, history: usize) -> Option<(String, String)> {
         let mut got_errors: Vec<String> = events
             .iter()
             .filter_map(|e| match e {
-                Event::Error { tag } => Some(tag.clone()),
+                // one hand-over may carry several appender errors (an aggregate): what must hold is that
+                // each failing appender's error is handed over exactly once in all
+                Event::Error { tag } => Some(tag.split('+').map(|t| t.to_owned()).collect::<Vec<_>>()),
                 _ => None,
             })
+            .flatten()
             .collect();
         got_errors.sort();
         want_errors.sort();
